@@ -10,7 +10,9 @@ trap 'git -C /repo worktree remove --force "$WT" >/dev/null 2>&1; rm -rf "$WT"' 
 cd "$WT"
 if ! git apply "$SD/patch.diff"; then echo "RESULT patch-does-not-apply"; exit 1; fi
 if ! go build ./... ; then echo "RESULT build-fails"; exit 1; fi
-SUITE=$(go test -vet=off -count=1 $(go list ./... | grep -v '^github.com/markkurossi/mpc$') 2>&1 | grep -v "no test files")
+PKGS=$(go list ./... | grep -v '^github.com/markkurossi/mpc$' | tr '\n' ' ')
+# private network namespace: the p2p test binds fixed TCP ports that other processes may hold
+SUITE=$(unshare -rn sh -c "ip link set lo up 2>/dev/null; go test -vet=off -count=1 $PKGS" 2>&1 | grep -v "no test files")
 echo "$SUITE" | grep -v "^ok" | head -20
 if echo "$SUITE" | grep -q "^FAIL\|^---\|panic:"; then echo "RESULT suite-fails-with-change"; SUITEOK=0; else SUITEOK=1; fi
 # top-level TestSuite: compare failing set with baseline (5 sha512 programs)
